@@ -307,6 +307,14 @@ fn check_cli(c: &Case, ctx: &Ctx) -> Outcome {
     let dir = ctx.case_dir();
     let (mut f1, mut f2) = write_reads(&dir, &m);
     // file naming: .fastq or .fq, plain or gzip-compressed (the content decides what a file is, not its name)
+    // a fifth of the pairs are named after the reference they were simulated from (ref.fa.sim_1.fastq)
+    if (c.k + m.reads.len()) % 5 == 0 {
+        for (f, n) in [(&mut f1, "ref.fa.sim_1.fastq"), (&mut f2, "ref.fa.sim_2.fastq")] {
+            let to = dir.join(n);
+            std::fs::rename(f.as_str(), &to).unwrap();
+            *f = cli::p(&to);
+        }
+    }
     let variant = (c.k / 2 + m.reads.len()) % 4;
     if variant & 1 == 1 {
         for f in [&mut f1, &mut f2] {
